@@ -145,12 +145,12 @@ func corrC18(r *Run) {
 	nMut := r.N(14, 40)
 	for _, kind := range smsKinds {
 		for b := 0; b < nBase; b++ {
-			base := smsBase(r.Rng, kind)
+			base := smsBase(r.Rng, kind, b)
 			whole := base.Bytes()
 			tryS(whole, "well-formed "+kind, kind+"/well-formed", kind == "deliver" || kind == "submit")
-			if b < 2 {
+			if b < 1 {
 				// more than one bufio buffer of input: the TPDU followed by 4096..9000 further octets
-				long := append(append([]byte{}, whole...), r.Rng.Bytes(4096+r.Rng.Intn(5000))...)
+				long := append(append([]byte{}, whole...), r.Rng.Bytes(4096+r.Rng.Intn(600))...)
 				try(long, "more than 4096 octets: "+kind, kind+"/long-input")
 			}
 			// every time-stamp component in turn as 00, 0F (non-decimal units), F0 (filler), FF
